@@ -883,6 +883,20 @@ private:
       {
         try { c.listenerReady->set_value(false); } catch (...) {}
       }
+      if (c.t == CmdType::Connect || c.t == CmdType::Via)
+      {
+        // connect()/connectViaListener() already returned this id to its caller
+        // (the command was queued after the final process() above) and it will
+        // never run: no session exists, so nothing else would ever report it.
+        // Every id handed out gets exactly one onClose.
+        decltype(_cbs.onClose) closeCb;
+        { std::lock_guard<std::mutex> g(_cbMutex); closeCb = _cbs.onClose; }
+        if (closeCb)
+        {
+          closeCb(c.t == CmdType::Connect ? c.c.sid : c.v.sid,
+                  TransportErrorInfo{TransportError::ShuttingDown, "shutdown"});
+        }
+      }
     }
     if (_epollFd >= 0)
     {
